@@ -1530,7 +1530,9 @@ func (p *Parser) parseHaving(stmt *SelectStatement) error {
 		}
 
 		tok := p.lexer.NextToken()
-		if tok.Type == TokenLIMIT || tok.Type == TokenEOF || tok.Type == TokenWITH {
+		// ORDER BY may follow HAVING directly (no WITH clause in between): it ends
+		// the HAVING condition just like LIMIT and WITH do.
+		if tok.Type == TokenLIMIT || tok.Type == TokenEOF || tok.Type == TokenWITH || tok.Type == TokenOrder {
 			break
 		}
 
